@@ -44,6 +44,7 @@ type RunConfig struct {
 	ChattyPair    bool    `json:"chatty_pair,omitempty"`
 	PStoreErr     float64 `json:"p_store_err,omitempty"`
 	Wire          bool    `json:"wire,omitempty"`
+	StarveOnly    bool    `json:"starve_only,omitempty"`
 	NilTx         bool    `json:"nil_tx"`
 	PAsync        float64 `json:"p_async"`
 	PReFF         float64 `json:"p_reff"`
